@@ -91,8 +91,8 @@ func Prop(c Case, x *h.Ctx) *h.Violation {
 	}
 	dctl, ictl := failw.NewCtl(), failw.NewCtl()
 	w.VerifWrapWriters(
-		func(d recordio.WriterI) recordio.WriterI { return &failw.Data{W: d, C: dctl} },
-		func(i rProto.WriterI) rProto.WriterI { return &failw.Index{W: i, C: ictl} })
+		func(d recordio.WriterI) recordio.WriterI { return &failw.Data{WriterI: d, C: dctl} },
+		func(i rProto.WriterI) rProto.WriterI { return &failw.Index{WriterI: i, C: ictl} })
 
 	type kv struct{ k, v []byte }
 	var ok []kv
